@@ -639,7 +639,7 @@ def gen_many(r, n, depth=4):
     return out[:max(n, len(directed()))]
 
 
-LAYOUTS = 9
+LAYOUTS = 10
 
 
 def gen_layouts(r, n):
@@ -653,6 +653,6 @@ def gen_layouts(r, n):
                     continue
                 d = json.loads(json.dumps(c))
                 d["layout"], d["nesting"] = layout, nesting
-                d["description"] = r.choice([None, "must hold"])
+                d["description"] = r.choice([None, "must hold"]) if layout != 9 else "gr\u00f6\u00dfer als null \u2013 \u00e9"
                 out.append(d)
     return out[:n] if n < len(out) else out
